@@ -14,7 +14,7 @@ Leaves4 == {Leaf(kd, <<K, X, T, Z>>, <<U>>) : kd \in {"fcn", "qres"}} \cup {Leaf
            \cup {Parm(<<Leaf("fcn", <<X, K, Z>>, <<U>>), Leaf("fcn", <<Z, T, X>>, <<V>>)>>)}
 Leaves1 == {Leaf(kd, <<X>>, <<U>>) : kd \in Kinds} \cup {Leaf("fcn", <<T>>, <<V>>)}          \* one input variable
 \* the library's own activation functions (relu^n with different n in one network, adaptive, sinus)
-LeavesA == {Leaf(kd, <<X, T>>, <<U>>) : kd \in {"fcn_relun", "fcn_adaptive", "fcn_sinus"}}
+LeavesA == {Leaf(kd, <<X, T>>, <<U>>) : kd \in {"fcn_relun", "fcn_adaptive", "fcn_sinus", "deepritz2", "deepritz1"}}
            \cup {Seqm(<<Leaf("fcn_relun", <<X, T>>, <<W>>), Leaf("fcn_adaptive", <<W>>, <<U>>)>>)}
 Models == Leaves \cup Leaves4 \cup Leaves1 \cup LeavesA
     \cup {Seqm(<<Leaf("norm", <<X>>, <<X>>), Leaf(kd, <<X>>, <<U>>)>>) : kd \in {"fcn", "harmonic"}}
@@ -23,7 +23,7 @@ Models == Leaves \cup Leaves4 \cup Leaves1 \cup LeavesA
     \cup {Parm(<<Leaf("fcn", <<K, T>>, <<V>>), Seqm(<<Leaf("qres", <<T, X>>, <<W>>), Leaf("fcn", <<W>>, <<U>>)>>)>>)}
     \cup {Seqm(<<Parm(<<Leaf("fcn", <<X>>, <<W>>), Leaf("qres", <<T, X>>, <<U>>)>>), Leaf("deepritz", <<U, W>>, <<V>>)>>)}
 Perms(S) == {s \in [1..Cardinality(S) -> S] : \A i, j \in 1..Cardinality(S) : i # j => s[i] # s[j]}
-RowSeqs == {<<1, 2, 3, 4>>, <<4, 2, 6, 1>>, <<3, 3, 5, 1>>, <<6, 5, 4, 3, 2, 1>>, <<2>>, <<5, 1>>}
+RowSeqs == {<<1, 2, 3, 4>>, <<4, 2, 6, 1>>, <<3, 3, 5, 1>>, <<6, 5, 4, 3, 2, 1>>, <<2>>, <<5, 1>>, <<1>>, <<3>>, <<4>>, <<6>>}          \* (every row also alone)
 Pres(m) == LET names == {Names(InSpace(m))[i] : i \in DOMAIN InSpace(m)} IN
            {[order |-> o, rows |-> r, axes |-> a, drop |-> ""] : o \in Perms(names), r \in RowSeqs, a \in {1}}
            \cup {[order |-> o, rows |-> <<4, 2, 6, 1>>, axes |-> 2, drop |-> ""] : o \in Perms(names)}
